@@ -7,6 +7,12 @@ VERIF = Path(__file__).resolve().parents[1]
 
 # id -> (technique, level text, level note, design ref)
 CLAIMED = {
+    "C06": (
+        "Lean 4 theorems over an executable model of bitvec.py / the word-instruction cases of SEVM.run (op_exact: every instruction, every operand representation, every sound simplifier, every standard interpretation), model tied to the code by a differential run of one-instruction SEVM executions against the Lean model and the Lean EVM spec",
+        "Proof on the model for all 2^256 operand values and all representation combinations; the tie to the code is a correspondence run (about 10^4 cases per quick run, all 25 instructions x 9 operand representations, boundary + harvested-literal + random values, two valuations per symbolic case) plus probes for promptness and for the shared TRUE/FALSE singletons",
+        "Trusted: Lean kernel (axioms propext, Classical.choice, Quot.sound), Spec.Word as the meaning of the EVM, z3 simplify (hypothesis SimpSound), the hand-written model Model.BitVecOps (validated by correspondence, not generated), harness and z3-AST evaluator. Symbolic SIGNEXTEND size is rejected by design (NotConcreteError) and outside the claim; abstraction=None branches are not reached from SEVM.run",
+        "DESIGN.md §4 C06",
+    ),
 }
 
 PENDING_REASON = "check not built yet in this session (planned; see DESIGN.md §6 staging) — not a statement that the technique cannot apply"
